@@ -65,7 +65,7 @@ TECHNIQUE = ("Coq proof about the executable model of Validator::validate and of
              "carries the coherence of group entries -- a predicate not closed under entry removal -- outside the two "
              "recorded finding families, given as boolean families of definitions, "
              "+ extracted-model/implementation correspondence + direct python oracle on every successful parse")
-LEVEL_TEXT = ("86 pinned machine-checked theorems (Coq 8.16, all closed under the global context, no standard-library axiom).  "
+LEVEL_TEXT = ("85 pinned machine-checked theorems (Coq 8.16, all closed under the global context, no standard-library axiom).  "
               "C03_parse_sound_tree / C03_parse_top_sound_tree: for every valid definition of the class plain (no short "
               "flag-subcommands) + no_ignore (no node sets ignore_errors; the class is proved to be inherited by every "
               "command the parser builds) and every argv, a successful parse reports -- up to the copy of global "
